@@ -164,15 +164,16 @@ Definition q_ds (q : qarc) : qarc * vqip :=
   let qs := q_sum q in
   (mkQ (q_a q) (q_n q) (q_queue q) qs (q_qs_ q) (q_dec q) (q_decayed q) (q_T q), vsub qs (q_qs_ q)).
 
+Definition q_dec1 (d : list (Q * Q)) (T : Q) (r : qreq) (acc : vqip) : qreq * vqip :=
+  match d with
+  | [] => (mkR (pred (r_time r)) (r_v r) (r_avg r) (r_push r), acc)
+  | _ => let '(v', diff) := vdecay d T (r_v r) in
+         (mkR (pred (r_time r)) v' (r_avg r) (r_push r), vsum acc diff)
+  end.
+Definition q_end_fold (d : list (Q * Q)) (T : Q) (rs : list qreq) (init : list qreq * vqip) : list qreq * vqip :=
+  fold_left (fun '(rs, acc) r => let '(r', acc') := q_dec1 d T r acc in (rs ++ [r'], acc')) rs init.
 Definition q_end (q : qarc) : qarc :=
-  let dec1 (r : qreq) (acc : vqip) : qreq * vqip :=
-    match q_dec q with
-    | [] => (mkR (pred (r_time r)) (r_v r) (r_avg r) (r_push r), acc)
-    | d => let '(v', diff) := vdecay d (q_T q) (r_v r) in
-           (mkR (pred (r_time r)) v' (r_avg r) (r_push r), vsum acc diff)
-    end in
-  let '(rs, tot) := fold_left (fun '(rs, acc) r => let '(r', acc') := dec1 r acc in (rs ++ [r'], acc'))
-                              (q_queue q) ([], vzero) in
+  let '(rs, tot) := q_end_fold (q_dec q) (q_T q) (q_queue q) ([], vzero) in
   mkQ (a_end (q_a q)) (q_n q) rs vzero (q_qs q) (q_dec q)
       (match q_dec q with [] => q_decayed q | _ => tot end) (q_T q).
 
